@@ -577,24 +577,45 @@ func (sc *Scenario) measIdent() string {
 
 func (sc *Scenario) measFile(csv bool) string {
 	var b strings.Builder
+	// a third of the measurement tables are the short form: the columns of the deeper layers (9-12, 12-15, 15-20 dm) are
+	// left out altogether, in the text file as well as in the CSV file (the values of those layers are then 0)
+	short := sc.MeasInit && sc.MeasShort
 	if csv {
-		b.WriteString("Id,Date,Nmin0-3,Nmin3-6,Nmin6-9,Nmin9-12,Nmin12-15,Nmin15-20,M,Water0-3,Water3-6,Water6-9,Water9-12,Water12-15,Water15-20\n")
+		if short {
+			b.WriteString("Id,Date,Nmin0-3,Nmin3-6,Nmin6-9,M,Water0-3,Water3-6,Water6-9\n")
+		} else {
+			b.WriteString("Id,Date,Nmin0-3,Nmin3-6,Nmin6-9,Nmin9-12,Nmin12-15,Nmin15-20,M,Water0-3,Water3-6,Water6-9,Water9-12,Water12-15,Water15-20\n")
+		}
 		if sc.MeasInit {
 			// a quarter of the CSV files carry cells padded with blanks (a table converted from the fixed-width file keeps them)
 			id, pad := sc.measIdent(), ""
 			if rp := NewRng(mix(mix(sc.Seed, uint64(sc.Index)), 7474)); rp.Bool(0.25) {
 				pad = pickS(rp, []string{" ", "     ", "\t"})
 			}
-			fmt.Fprintf(&b, "%s,%s,%d,%d,%d,%d,%d,%d,%s,%.3f,%.3f,%.3f,%.3f,%.3f,%.3f\n", id+pad, FmtDate(sc.MeasDate, sc.DateFormat)+pad,
-				sc.MeasN[0], sc.MeasN[1], sc.MeasN[2], sc.MeasN[3], sc.MeasN[4], sc.MeasN[5], sc.MeasMode,
-				sc.MeasW[0], sc.MeasW[1], sc.MeasW[2], sc.MeasW[3], sc.MeasW[4], sc.MeasW[5])
+			if short {
+				fmt.Fprintf(&b, "%s,%s,%d,%d,%d,%s,%.3f,%.3f,%.3f\n", id+pad, FmtDate(sc.MeasDate, sc.DateFormat)+pad,
+					sc.MeasN[0], sc.MeasN[1], sc.MeasN[2], sc.MeasMode, sc.MeasW[0], sc.MeasW[1], sc.MeasW[2])
+			} else {
+				fmt.Fprintf(&b, "%s,%s,%d,%d,%d,%d,%d,%d,%s,%.3f,%.3f,%.3f,%.3f,%.3f,%.3f\n", id+pad, FmtDate(sc.MeasDate, sc.DateFormat)+pad,
+					sc.MeasN[0], sc.MeasN[1], sc.MeasN[2], sc.MeasN[3], sc.MeasN[4], sc.MeasN[5], sc.MeasMode,
+					sc.MeasW[0], sc.MeasW[1], sc.MeasW[2], sc.MeasW[3], sc.MeasW[4], sc.MeasW[5])
+			}
 		}
 	} else {
-		b.WriteString("Plot_ID   Date     Nm03 Nm36 Nm69 M W0_3  W3_6  W6_9  NM9-12 NM12-15 NM15-20  W9-12 W12-15 W15-20\n")
+		if short {
+			b.WriteString("Plot_ID   Date     Nm03 Nm36 Nm69 M W0_3  W3_6  W6_9\n")
+		} else {
+			b.WriteString("Plot_ID   Date     Nm03 Nm36 Nm69 M W0_3  W3_6  W6_9  NM9-12 NM12-15 NM15-20  W9-12 W12-15 W15-20\n")
+		}
 		if sc.MeasInit {
-			fmt.Fprintf(&b, "%-9s %s %04d %04d %04d %s %.3f %.3f %.3f %04d   %04d    %04d     %.3f %.3f  %.3f\n", sc.measIdent(), FmtDate(sc.MeasDate, sc.DateFormat),
-				sc.MeasN[0], sc.MeasN[1], sc.MeasN[2], sc.MeasMode, sc.MeasW[0], sc.MeasW[1], sc.MeasW[2],
-				sc.MeasN[3], sc.MeasN[4], sc.MeasN[5], sc.MeasW[3], sc.MeasW[4], sc.MeasW[5])
+			if short {
+				fmt.Fprintf(&b, "%-9s %s %04d %04d %04d %s %.3f %.3f %.3f\n", sc.measIdent(), FmtDate(sc.MeasDate, sc.DateFormat),
+					sc.MeasN[0], sc.MeasN[1], sc.MeasN[2], sc.MeasMode, sc.MeasW[0], sc.MeasW[1], sc.MeasW[2])
+			} else {
+				fmt.Fprintf(&b, "%-9s %s %04d %04d %04d %s %.3f %.3f %.3f %04d   %04d    %04d     %.3f %.3f  %.3f\n", sc.measIdent(), FmtDate(sc.MeasDate, sc.DateFormat),
+					sc.MeasN[0], sc.MeasN[1], sc.MeasN[2], sc.MeasMode, sc.MeasW[0], sc.MeasW[1], sc.MeasW[2],
+					sc.MeasN[3], sc.MeasN[4], sc.MeasN[5], sc.MeasW[3], sc.MeasW[4], sc.MeasW[5])
+			}
 		}
 		b.WriteString("end\n")
 	}
